@@ -31,7 +31,8 @@ RULE = ("continuous/gp/multi-objective: every function x dimensions 0..30 as it 
         "exhaustive bit strings up to 9 bits quick / 12 bits thorough + random 13..80-bit strings (royal-road block "
         "widths up to 100 bits); bin2float: bit widths 1..64 x ranges; decorators: recording wrapped function, dyadic vectors, "
         "permutation / signed / exact-angle / QR rotation matrices, power-of-two and general scale factors; moving "
-        "peaks: the three standard scenarios, fixed and fluctuating peak numbers, recorded tape, 50 changes. "
+        "peaks: the three standard scenarios, fixed and fluctuating peak numbers, recorded tape, 50 changes; counted "
+        "evaluations (nevals, change exactly when period > 0 and nevals % period == 0) with periods -3..10. "
         "Non-trivial = distinct case that is not a rejected (error) input")
 EXHAUSTIVE = {"quick": False, "thorough": False}
 TIME_BUDGET = {"quick": 60, "thorough": 900}
@@ -389,7 +390,10 @@ def ev_mo(d):
         if name == "dtlz4":
             args.append(d["alpha"]); extra.append(fbits(d["alpha"]))
     if name == "dent":
-        args.append(d["lam"]); extra.append(fbits(d["lam"]))
+        if d["lam"] is None:              # documented default lambda_ = 0.85
+            extra.append(fbits(0.85))
+        else:
+            args.append(d["lam"]); extra.append(fbits(d["lam"]))
     res, err = call_impl(getattr(benchmarks, name), list(x), *args)
     line = "C20 mo %s %s%s" % (name, fl(x), "".join(" " + e for e in extra))
     tag = "mo/%s%s/%s" % (name, "/M=%d" % d["M"] if name in DTLZ else "", d.get("cat", "rand"))
@@ -414,7 +418,7 @@ def ev_mo(d):
             orc = "%s objectives have norm %r, 1+g = %r" % (name, math.sqrt(sum(v * v for v in f)), 1 + g)
         scale_ = max(1.0, abs(g))
     elif name == "dent":
-        ref, scale_ = r_dent(x, d["lam"]), 1.0
+        ref, scale_ = r_dent(x, 0.85 if d["lam"] is None else d["lam"]), 1.0
     else:
         ref, scale_ = REFMO[name](x), 1.0
         if len(f) != 2:
@@ -623,40 +627,59 @@ def ev_rotate(d):
                 tag="dec/rotate/%s/n=%d" % (d.get("cat", "rand"), len(x)), tol=TOL)
 
 
+def noise_arg(spec, draw):
+    if spec == "rep1":
+        return draw
+    if spec == "rep0":
+        return None
+    return [draw if c == "1" else None for c in spec[5:]]
+
+
+def noise_flags(spec, n):
+    if spec == "rep1":
+        return [True] * n
+    if spec == "rep0":
+        return [False] * n
+    return [c == "1" for c in spec[5:]]
+
+
 def ev_noise(d):
-    result, draws, spec = d["result"], list(d["draws"]), d["spec"]
-    pool = list(draws)
+    """d["spec"] at decoration time; d.get("reset") = further specs installed through the documented setter
+    `evaluate.noise(...)`, one call after each; every call is one stateless protocol line for the model"""
+    result, pool = d["result"], list(d["draws"])
 
     def draw():
         return pool.pop(0)
-    if spec == "rep1":
-        arg, flags = draw, [True] * len(result)
-    elif spec == "rep0":
-        arg, flags = None, [False] * len(result)
-    else:
-        flags = [c == "1" for c in spec[5:]]
-        arg = [draw if fl_ else None for fl_ in flags]
 
     def func(ind):
         return tuple(result)
-    line = "C20 noise %s %s %s" % (spec, fl(result), fl(draws))
-    try:
-        out = btools.noise(arg)(func)([0.0])
-    except IndexError:
-        return Case(d, [line], ["bad-tape"], None, tag="dec/noise/short-tape", nontrivial=False)
-    out = list(out)
-    used, want = 0, []
-    for r, f_ in zip(result, flags):
-        if f_:
-            want.append(Fr(r) + Fr(draws[used])); used += 1
-        else:
-            want.append(Fr(r))
-    orc = None
-    if len(out) != len(want) or any(Fr(o) != w for o, w in zip(out, want)):
-        orc = "noise returned %r, result + draws = %r" % (out, [float(w) for w in want])
-    elif len(pool) != len(draws) - used:
-        orc = "noise consumed %d draws for %d noisy objectives" % (len(draws) - len(pool), used)
-    return Case(d, [line], ["%s %d" % (fl(out), len(pool))], orc, tag="dec/noise/" + spec.split(":")[0], tol=TOL)
+    specs = [d["spec"]] + list(d.get("reset", []))
+    fn = btools.noise(noise_arg(specs[0], draw))(func)
+    lines, expect, orc = [], [], None
+    for i, spec in enumerate(specs):
+        if i > 0:
+            fn.noise(noise_arg(spec, draw))
+        before = list(pool)
+        lines.append("C20 noise %s %s %s" % (spec, fl(result), fl(before)))
+        try:
+            out = list(fn([0.0]))
+        except IndexError:
+            expect.append("bad-tape")
+            return Case(d, lines, expect, orc, tag="dec/noise/short-tape", nontrivial=False, tol=TOL)
+        used, want = 0, []
+        for r, f_ in zip(result, noise_flags(spec, len(result))):
+            if f_:
+                want.append(Fr(r) + Fr(before[used])); used += 1
+            else:
+                want.append(Fr(r))
+        expect.append("%s %d" % (fl(out), len(pool)))
+        if orc is None:
+            if len(out) != len(want) or any(Fr(o) != w for o, w in zip(out, want)):
+                orc = "noise (call #%d, spec %s) returned %r, result + draws = %r" % (i, spec, out, [float(w) for w in want])
+            elif len(pool) != len(before) - used:
+                orc = "noise consumed %d draws for %d noisy objectives" % (len(before) - len(pool), used)
+    tag = "dec/noise/" + (d["spec"].split(":")[0] if len(specs) == 1 else "setter-history/%d" % len(specs))
+    return Case(d, lines, expect, orc, tag=tag, tol=TOL)
 
 
 def ev_bound(d):
@@ -718,6 +741,13 @@ def mp_build(d, rnd):
     return movingpeaks.MovingPeaks(dim=d["dim"], random=rnd, **sc), sc
 
 
+def mp_limits(d):
+    """the configured limits (min, max) and initial count, from the case description, not from the object"""
+    if isinstance(d["npeaks"], list):
+        return (d["npeaks"][0], d["npeaks"][2]), d["npeaks"][1]
+    return None, d["npeaks"]
+
+
 def mp_values(mp, x):
     vals = [f(x, p, h, w) for f, p, h, w in zip(mp.peaks_function, mp.peaks_position, mp.peaks_height, mp.peaks_width)]
     if mp.basis_function:
@@ -734,6 +764,9 @@ def ev_mp(d):
     for f, p, h, w, l in zip(mp.peaks_function, mp.peaks_position, mp.peaks_height, mp.peaks_width, mp.last_change_vector):
         peaks0 += [PFL[f], fl(p), fbits(h), fbits(w), fl(l)]
     n0 = len(mp.peaks_function)
+    lims, cfg_n0 = mp_limits(d)
+    if n0 != cfg_n0:
+        return Case(d, [], [], "constructed with %d peaks, configured %d" % (n0, cfg_n0), tag="mp/init")
     lim = "none" if mp.minpeaks is None else "%d,%d" % (mp.minpeaks, mp.maxpeaks)
     basis = None
     if mp.basis_function:
@@ -749,8 +782,8 @@ def ev_mp(d):
                 mp.changePeaks()
         except ValueError as e:                   # e.g. max() of no peak at all
             n = len(mp.peaks_function)
-            if mp.minpeaks is not None and not (mp.minpeaks <= n <= mp.maxpeaks):
-                orc = "during change %d there are %d peaks, limits [%d, %d]" % (j + 1, n, mp.minpeaks, mp.maxpeaks)
+            if lims is not None and not (lims[0] <= n <= lims[1]):
+                orc = "during change %d there are %d peaks, limits [%d, %d]" % (j + 1, n, lims[0], lims[1])
             else:
                 orc = "change %d raised ValueError: %s" % (j + 1, e)
             return Case(d, [], [], orc, tag="mp/exception")
@@ -759,9 +792,9 @@ def ev_mp(d):
             lens = set(map(len, (mp.peaks_position, mp.peaks_height, mp.peaks_width, mp.last_change_vector)))
             if lens != {n}:
                 orc = "per-peak lists have different lengths %r after change %d" % (sorted(lens), j + 1)
-            if mp.minpeaks is not None and not (mp.minpeaks <= n <= mp.maxpeaks):
-                orc = "after change %d there are %d peaks, limits [%d, %d]" % (j + 1, n, mp.minpeaks, mp.maxpeaks)
-            if mp.minpeaks is None and n != n0:
+            if lims is not None and not (lims[0] <= n <= lims[1]):
+                orc = "after change %d there are %d peaks, limits [%d, %d]" % (j + 1, n, lims[0], lims[1])
+            if lims is None and n != n0:
                 orc = "fixed number of peaks changed from %d to %d" % (n0, n)
             if orc is not None:
                 return Case(d, [], [], orc, tag="mp/count")
@@ -807,8 +840,56 @@ def ev_mpcall(d):
                 tol=TOL)
 
 
+def mp_common_tokens(mp, d, basis, x, n0, peaks0, draws):
+    lim = "none" if mp.minpeaks is None else "%d,%d" % (mp.minpeaks, mp.maxpeaks)
+    pool = "".join(PFL[f] for f in mp.pfunc_pool)
+    return [str(d["dim"]), lim, fbits(d.get("sev", 0.0)), pool,
+            fbits(mp.min_coord), fbits(mp.max_coord), fbits(mp.min_height), fbits(mp.max_height), fbits(mp.min_width),
+            fbits(mp.max_width), fbits(mp.lambda_), fbits(mp.move_severity), fbits(mp.height_severity),
+            fbits(mp.width_severity), "none" if basis is None else fbits(basis), fl(x), str(n0)] + peaks0 + draws
+
+
+def ev_mpcount(d):
+    """counted evaluations: nevals += 1 per call, changePeaks exactly when period > 0 and nevals % period == 0"""
+    rnd = RecRandom(d["seed"])
+    mp, sc = mp_build(d, rnd)
+    x = [float(v) for v in d["x"]]
+    rnd.draws = []
+    peaks0 = []
+    for f, p, h, w, l in zip(mp.peaks_function, mp.peaks_position, mp.peaks_height, mp.peaks_width, mp.last_change_vector):
+        peaks0 += [PFL[f], fl(p), fbits(h), fbits(w), fl(l)]
+    n0 = len(mp.peaks_function)
+    lims, cfg_n0 = mp_limits(d)
+    if n0 != cfg_n0:
+        return Case(d, [], [], "constructed with %d peaks, configured %d" % (n0, cfg_n0), tag="mp/init")
+    basis = float(mp.basis_function(x)) if mp.basis_function else None
+    period = d.get("period", 0)
+    steps, orc = [], None
+    for j in range(d["evals"]):
+        before = max(mp_values(mp, x))
+        ndraws = len(rnd.draws)
+        v = mp(x)[0]
+        changed = len(rnd.draws) != ndraws
+        steps.append("%s,%d,%d,%d" % (fbits(v), int(changed), mp.nevals, len(mp.peaks_function)))
+        if orc is None:
+            want = period > 0 and (j + 1) % period == 0
+            if mp.nevals != j + 1:
+                orc = "after %d counted evaluations nevals = %d" % (j + 1, mp.nevals)
+            elif changed != want:
+                orc = "evaluation %d with period %d: change %s" % (j + 1, period, "triggered" if changed else "not triggered")
+            elif v != before:
+                orc = "evaluation %d returned %r, the maximum of the peak functions before it was %r" % (j + 1, v, before)
+            elif lims is not None and not (lims[0] <= len(mp.peaks_function) <= lims[1]):
+                orc = "after evaluation %d there are %d peaks, limits [%d, %d]" % (j + 1, len(mp.peaks_function), lims[0], lims[1])
+    final = ";".join("%s,%s,%s,%s,%s" % (PFL[f], fbits(h), fbits(w), fl(p), fl(l)) for f, p, h, w, l in
+                     zip(mp.peaks_function, mp.peaks_position, mp.peaks_height, mp.peaks_width, mp.last_change_vector)) or "-"
+    toks = ["C20", "mpcount", str(d["evals"]), str(period), "0"] + mp_common_tokens(mp, d, basis, x, n0, peaks0, rnd.draws)
+    expect = "%s %s 0" % (";".join(steps) or "-", final)
+    return Case(d, [" ".join(toks)], [expect], orc, tag="mp/count/sc%d/period=%d" % (d["scenario"], period), tol=TOL)
+
+
 EV = {"f": ev_single, "shekel": ev_shekel, "mo": ev_mo, "bin": ev_bin, "b2f": ev_b2f, "translate": ev_translate,
-      "scale": ev_scale, "rotate": ev_rotate, "noise": ev_noise, "bound": ev_bound, "mp": ev_mp, "mpcall": ev_mpcall}
+      "scale": ev_scale, "rotate": ev_rotate, "noise": ev_noise, "bound": ev_bound, "mp": ev_mp, "mpcall": ev_mpcall, "mpcount": ev_mpcount}
 
 
 def evaluate(d):
@@ -878,7 +959,7 @@ def gen_mo(rng, per):
                 if name == "zdt4" and n:          # x_1 in [0, 1], the others in [-5, 5]
                     d["x"][0] = rpoint(rng, 0.0, 1.0, 1, cat)[0]
                 if name == "dent":
-                    d["lam"] = rng.choice([0.85, 0.85, 0.5, 1.0, 0.0])
+                    d["lam"] = rng.choice([None, None, 0.85, 0.5, 1.0, 0.0])
                 yield d
     for name in DTLZ:
         for M in range(1, 8):
@@ -1081,6 +1162,10 @@ def gen_dec(rng, nrand):
             spec = "each:" + "".join(rng.choice("01") for _ in range(k))
         nd = m + rng.randint(0, 2) if rng.random() < 0.9 else rng.randint(0, m)
         yield {"k": "noise", "spec": spec, "result": result, "draws": [dyadic(rng, 2) for _ in range(nd)]}
+        if rng.random() < 0.3:
+            mk = lambda: rng.choice(["rep1", "rep0", "each:" + "".join(rng.choice("01") for _ in range(m))])
+            yield {"k": "noise", "spec": mk(), "result": result, "reset": [mk() for _ in range(rng.randint(1, 3))],
+                   "draws": [dyadic(rng, 2) for _ in range(4 * m + 2)]}
         if rng.random() < 0.2:
             yield {"k": "bound", "kind": rng.choice(["mirror", "wrap", "clip"]),
                    "x": [[dyadic(rng) for _ in range(rng.randint(0, 4))] for _ in range(rng.randint(0, 3))]}
@@ -1124,6 +1209,14 @@ def gen_mp(rng, nrun, changes):
             if rng.random() < 0.2:
                 d["lambda_"] = rng.choice([0.0, 1.0, 0.5])
             yield d
+            # counted evaluations with a small period (negative / zero period: never a change)
+            e = dict(d, k="mpcount", period=rng.choice([1, 2, 3, 5, 7, 0, -3, 10]), evals=rng.randint(1, 25))
+            e.pop("changes")
+            if sc == 3:
+                e["npeaks"] = d["npeaks"] if isinstance(d["npeaks"], int) and rng.random() < 0.3 else [2, 6, 12]
+                e["sev"] = d.get("sev", 0.5)
+                e.pop("pfuncs", None)
+            yield e
 
 
 def generate(tier, rng, mult):
@@ -1166,6 +1259,9 @@ def shrink(d):
         for i, c in enumerate(s):
             if c == "1":
                 yield dict(d, bits=s[:i] + "0" + s[i + 1:], opt=None)
+    if k == "mpcount" and d["evals"] > 1:
+        yield dict(d, evals=d["evals"] // 2)
+        yield dict(d, evals=d["evals"] - 1)
     if k == "mp":
         if d["changes"] > 1:
             yield dict(d, changes=d["changes"] // 2)
